@@ -90,11 +90,12 @@ CLAIMED['C14'] = dict(
          'by the correspondence check (implementation = that function on families env and floor with random asset-id offsets). '
          '(b) Theorems (Props/C14.lean): a strictly monotone renaming of asset ids commutes with every environment operation '
          'and operation sequence (ids are used only through < as last tie-break and = in pause/cancel), i.e. results are '
-         'independent of the id offset. (c) run_split (a then b = a+b with fixed tie-breaks) is stated in Props/C14Split.lean; '
-         'until its proof is merged it is covered by the split-run metamorphic check only. (d) Same seed twice with the '
+         'independent of the id offset. (c) run_split (Props/C14Split.lean), proved for an ARBITRARY closed system of actions: running for a and then for b '
+         'yields the same final user state and the same environment up to event numbering as running once for a+b, with '
+         'the tie-break weights held fixed and user priorities above TERMINATE (simulation argument, no bound on steps). (d) Same seed twice with the '
          'unpatched generator, different PYTHONHASHSEEDs, simulate_multiple_times in-process vs 1/2/4/default worker processes '
          'are CHECKED on the real code on every run (not provable about CPython).',
-    note=BASE_NOTE + ' Partial: worker-process equality, hash-order independence and (for now) run_split are checked, not proved.',
+    note=BASE_NOTE + ' Partial: worker-process equality and hash-order independence are checked, not proved.',
     technique='Lean 4 commutation theorem + differential correspondence + metamorphic runs of the real code',
 )
 CLAIMED['C16'] = dict(
